@@ -6,4 +6,4 @@ Require Import ExtrOcamlBasic ExtrOcamlString.
 Extraction Language OCaml.
 Extraction "../ocaml/c06/model.ml" new_session decide decide_history safe_errorb named_unsafe_errorb
   is_retry is_same_target carried prop_decision_ok prop_history_ok same_target_budget fiber
-  attempts conn_fails attempt_cls.
+  attempts conn_fails attempt_cls prop_trace_ok.
